@@ -3,6 +3,8 @@
 #   tools/mutant.sh verify <dir>          <dir> holds patch.diff and demo_test.go ("// dir: <pkgdir>" on line 1)
 #   tools/mutant.sh check  <dir> <ID>...  run the quick checks against a scratch worktree carrying the patch
 # Scratch worktrees live under /tmp/mutv and are removed afterwards.
+# VERIF_HOME (default /verif): run the checks of a snapshot copy of /verif, so that
+# editing /verif does not disturb a batch that is running.
 set -u
 export GOFLAGS=-mod=mod GOPROXY=off GOSUMDB=off GOTOOLCHAIN=local
 cmd=$1; dir=$(cd "$2" && pwd); shift 2
@@ -29,10 +31,10 @@ verify)
 check)
   git -C "$wt" apply "$dir/patch.diff" || { echo "RESULT $dir patch-does-not-apply"; exit 1; }
   for id in "$@"; do
-    out=$(cd /verif && VERIF_REPO="$wt" VERIF_WORKTAG="$name" timeout 3600 ./check $id quick 2>&1 </dev/null); rc=$?
+    out=$(cd "${VERIF_HOME:-/verif}" && VERIF_REPO="$wt" VERIF_WORKTAG="$name" timeout 3600 ./check $id quick 2>&1 </dev/null); rc=$?
     echo "CHECK $dir $id rc=$rc $(echo "$out" | grep -c '^VIOLATION') violations"
     echo "$out" | grep -v '^KNOWN\|^    case' | grep -A1 'clause=' | head -8 | cut -c1-300
-    rm -rf "/verif/.work/$name-$id"
+    rm -rf "${VERIF_HOME:-/verif}/.work/$name-$id"
   done
   ;;
 esac
